@@ -1,4 +1,572 @@
-//! keyregistry: not built yet.
-pub fn run(args: &vh_common::Args) {
-    vh_common::unknown(args)
+//! KeyRegistry (C38): `p2panda_encryption::key_registry::KeyRegistry` against spec/KeyRegistry.
+//!
+//! The registry reads `SystemTime` itself, so spec time is mapped onto the real clock:
+//! spec time `s` is the real second `base + (s - start) * H` (H = 3 s). The spec's clock only takes
+//! even values and lifetime bounds only odd ones, so every call of a phase (spec clock = 2k) may
+//! happen anywhere inside the real interval `[real(2k), real(2k+1))` without changing any
+//! comparison; after each behaviour's calls of a phase the clock is read again and the behaviour is
+//! discarded and re-run in a later round if it left that interval (no wall-clock judgement enters
+//! a verdict). All behaviours share one schedule: a spec tick costs one real sleep for all of them.
+use std::collections::BTreeMap;
+use std::time::{Duration, SystemTime, UNIX_EPOCH};
+
+use p2panda_encryption::Rng as CryptoRng;
+use p2panda_encryption::crypto::x25519::{PublicKey, SecretKey};
+use p2panda_encryption::crypto::xeddsa::XSignature;
+use p2panda_encryption::key_bundle::{
+    Lifetime, LongTermKeyBundle, OneTimeKeyBundle, OneTimePreKey, PreKey,
+};
+use p2panda_encryption::key_registry::{KeyRegistry, KeyRegistryState};
+use p2panda_encryption::traits::{KeyBundle, PreKeyRegistry};
+use vh_common::{Args, Outcome, Rng, TraceWriter, Value, catch, json, read_ndjson, unknown};
+
+pub fn run(args: &Args) {
+    match args.mode.as_str() {
+        "replay" => replay(args),
+        "record" => record(args),
+        _ => unknown(args),
+    }
+}
+
+/// Real seconds per spec time unit.
+const H: u64 = 3;
+const THREADS: usize = 8;
+const ROUNDS: usize = 4;
+
+fn now_secs() -> u64 {
+    SystemTime::now().duration_since(UNIX_EPOCH).expect("clock before epoch").as_secs()
+}
+
+type Reg = KeyRegistry<usize>;
+type State = KeyRegistryState<usize>;
+
+#[derive(Clone, Copy, Debug, PartialEq, Eq)]
+struct Desc {
+    nb: i64,
+    na: i64,
+    sig: bool,
+}
+
+impl Desc {
+    fn from_json(v: &Value) -> Desc {
+        Desc { nb: v["nb"].as_i64().unwrap(), na: v["na"].as_i64().unwrap(), sig: v["sig"].as_bool().unwrap() }
+    }
+    fn json(&self) -> Value {
+        json!({"nb": self.nb, "na": self.na, "sig": self.sig})
+    }
+    fn valid(&self, now: i64) -> bool {
+        self.sig && self.nb < now && now < self.na
+    }
+}
+
+const NOB: Desc = Desc { nb: 0, na: 0, sig: false };
+
+/// Pre-signed pre-keys of one member (the pre-key signature does not cover the lifetime).
+struct Signed {
+    prekey: PublicKey,
+    good: XSignature,
+    bad: XSignature,
+    onetime: PublicKey,
+}
+
+struct Keys {
+    identity: Vec<PublicKey>,
+    signed: Vec<Vec<Signed>>, // per member
+}
+
+fn make_keys(seed: u64, members: usize, per_member: usize) -> Keys {
+    let rng = CryptoRng::from_seed({
+        let mut s = [3u8; 32];
+        s[..8].copy_from_slice(&seed.to_le_bytes());
+        s
+    });
+    let mut identity = Vec::new();
+    let mut signed = Vec::new();
+    for _ in 0..members {
+        let id_secret = SecretKey::from_bytes(rng.random_array().unwrap());
+        let other_secret = SecretKey::from_bytes(rng.random_array().unwrap());
+        identity.push(id_secret.verifying_key().unwrap());
+        let mut v = Vec::new();
+        for k in 0..per_member {
+            let pk_secret = SecretKey::from_bytes(rng.random_array().unwrap());
+            let prekey = pk_secret.verifying_key().unwrap();
+            let probe = PreKey::new(prekey, Lifetime::from_range(0, 1));
+            let good = probe.sign(&id_secret, &rng).unwrap();
+            // three ways for a signature not to verify
+            let bad = match k % 3 {
+                0 => {
+                    let mut b = good.to_bytes();
+                    b[(k / 3) % 64] ^= 1 << (k % 8);
+                    XSignature::from_bytes(b)
+                }
+                1 => probe.sign(&other_secret, &rng).unwrap(), // signed by somebody else
+                _ => {
+                    // a valid signature of the same identity over another pre-key
+                    let o = SecretKey::from_bytes(rng.random_array().unwrap()).verifying_key().unwrap();
+                    PreKey::new(o, Lifetime::from_range(0, 1)).sign(&id_secret, &rng).unwrap()
+                }
+            };
+            let onetime = SecretKey::from_bytes(rng.random_array().unwrap()).verifying_key().unwrap();
+            v.push(Signed { prekey, good, bad, onetime });
+        }
+        signed.push(v);
+    }
+    Keys { identity, signed }
+}
+
+/// Mapping between spec time and the real clock.
+#[derive(Clone, Copy)]
+struct Clock {
+    base: u64,
+    start: i64,
+}
+
+impl Clock {
+    fn real(&self, s: i64) -> u64 {
+        let v = self.base as i128 + (s - self.start) as i128 * H as i128;
+        v.clamp(0, u64::MAX as i128) as u64
+    }
+}
+
+#[derive(Clone, Debug)]
+enum Op {
+    AddOneTime(usize, Desc),
+    AddLongTerm(usize, Desc),
+    GetOneTime(usize),
+    GetLongTerm(usize),
+    RemoveExpired,
+    Tick(i64),
+}
+
+/// What a call did, in spec terms.
+#[derive(Clone, Debug, PartialEq)]
+struct Seen {
+    ok: bool,
+    b: Desc,
+    /// `verify()` of the returned bundle right after the call (true when none was returned)
+    returned_verifies: bool,
+    ot_len: usize,
+    lt_len: usize,
+}
+
+struct Runner<'k> {
+    keys: &'k Keys,
+    clock: Clock,
+    y: State,
+    next_key: Vec<usize>,
+    /// pre-key -> descriptor of the bundle built around it
+    built: BTreeMap<[u8; 32], Desc>,
+}
+
+impl<'k> Runner<'k> {
+    fn new(keys: &'k Keys, clock: Clock) -> Self {
+        Runner { keys, clock, y: Reg::init(), next_key: vec![0; keys.identity.len()], built: BTreeMap::new() }
+    }
+
+    fn material(&mut self, m: usize, d: Desc) -> (PublicKey, PreKey, XSignature, OneTimePreKey) {
+        let k = self.next_key[m];
+        self.next_key[m] += 1;
+        let s = &self.keys.signed[m][k];
+        let prekey = PreKey::new(s.prekey, Lifetime::from_range(self.clock.real(d.nb), self.clock.real(d.na)));
+        self.built.insert(s.prekey.to_bytes(), d);
+        (self.keys.identity[m], prekey, if d.sig { s.good } else { s.bad }, OneTimePreKey::new(s.onetime, k as u64))
+    }
+
+    fn lens(&self, m: usize) -> (usize, usize) {
+        let v = serde_json::to_value(&self.y).expect("state to json");
+        let len = |field: &str| v[field][m.to_string()].as_array().map(|a| a.len()).unwrap_or(0);
+        (len("onetime_bundles"), len("longterm_bundles"))
+    }
+
+    /// Executes one call on the real registry. Err = panic message.
+    fn call(&mut self, op: &Op) -> Result<Seen, String> {
+        let y = self.y.clone();
+        let (seen, m) = match op {
+            Op::AddOneTime(m, d) => {
+                let (id, prekey, sig, otk) = self.material(*m, *d);
+                let bundle = OneTimeKeyBundle::new(id, prekey, sig, Some(otk));
+                let r = catch(move || Reg::add_onetime_bundle(y, *m, bundle))?;
+                let ok = r.is_ok();
+                if let Ok(n) = r {
+                    self.y = n;
+                }
+                (Seen { ok, b: *d, returned_verifies: true, ot_len: 0, lt_len: 0 }, *m)
+            }
+            Op::AddLongTerm(m, d) => {
+                let (id, prekey, sig, _) = self.material(*m, *d);
+                let bundle = LongTermKeyBundle::new(id, prekey, sig);
+                let r = catch(move || Reg::add_longterm_bundle(y, *m, bundle))?;
+                let ok = r.is_ok();
+                if let Ok(n) = r {
+                    self.y = n;
+                }
+                (Seen { ok, b: *d, returned_verifies: true, ot_len: 0, lt_len: 0 }, *m)
+            }
+            Op::GetOneTime(m) => {
+                let mm = *m;
+                let r = catch(move || <Reg as PreKeyRegistry<usize, OneTimeKeyBundle>>::key_bundle(y, &mm))?;
+                let (n, b) = r.expect("infallible");
+                self.y = n;
+                let verifies = b.as_ref().map(|b| b.verify().is_ok()).unwrap_or(true);
+                let d = b.map(|b| self.built[&b.signed_prekey().to_bytes()]).unwrap_or(NOB);
+                (Seen { ok: true, b: d, returned_verifies: verifies, ot_len: 0, lt_len: 0 }, *m)
+            }
+            Op::GetLongTerm(m) => {
+                let mm = *m;
+                let r = catch(move || <Reg as PreKeyRegistry<usize, LongTermKeyBundle>>::key_bundle(y, &mm))?;
+                match r {
+                    Ok((n, b)) => {
+                        self.y = n;
+                        let verifies = b.as_ref().map(|b| b.verify().is_ok()).unwrap_or(true);
+                        let d = b.map(|b| self.built[&b.signed_prekey().to_bytes()]).unwrap_or(NOB);
+                        (Seen { ok: true, b: d, returned_verifies: verifies, ot_len: 0, lt_len: 0 }, *m)
+                    }
+                    Err(_) => (Seen { ok: false, b: NOB, returned_verifies: true, ot_len: 0, lt_len: 0 }, *m),
+                }
+            }
+            Op::RemoveExpired => {
+                self.y = catch(move || Reg::remove_expired(y))?;
+                (Seen { ok: true, b: NOB, returned_verifies: true, ot_len: 0, lt_len: 0 }, 0)
+            }
+            Op::Tick(_) => unreachable!("ticks are the schedule"),
+        };
+        let (ot_len, lt_len) = self.lens(m);
+        Ok(Seen { ot_len, lt_len, ..seen })
+    }
+}
+
+/// A behaviour split into phases (calls between two ticks).
+struct Plan {
+    phases: Vec<Vec<Op>>,
+    /// spec clock of each phase
+    nows: Vec<i64>,
+}
+
+fn plan(ops: &[Op], start: i64) -> Plan {
+    let mut phases = vec![Vec::new()];
+    let mut nows = vec![start];
+    for op in ops {
+        if let Op::Tick(d) = op {
+            phases.push(Vec::new());
+            nows.push(nows.last().unwrap() + d);
+        } else {
+            phases.last_mut().unwrap().push(op.clone());
+        }
+    }
+    Plan { phases, nows }
+}
+
+/// Runs all plans on one shared real-time schedule. `results[i]` = per phase the calls' outcomes
+/// (Err = panic), or None if the behaviour left its time window in every round.
+fn run_schedule(keys: &Keys, plans: &[Plan], start: i64, out: &mut Outcome) -> Vec<Option<Vec<Vec<Result<Seen, String>>>>> {
+    let mut results: Vec<Option<Vec<Vec<Result<Seen, String>>>>> = (0..plans.len()).map(|_| None).collect();
+    let mut todo: Vec<usize> = (0..plans.len()).collect();
+    for round in 0..ROUNDS {
+        if todo.is_empty() {
+            break;
+        }
+        if round > 0 {
+            out.count_by("behaviours_rerun_left_time_window", todo.len() as u64);
+        }
+        // base: the start of a fresh real second, one second ahead
+        let t = now_secs();
+        while now_secs() == t {
+            std::thread::sleep(Duration::from_millis(2));
+        }
+        let clock = Clock { base: now_secs(), start };
+        let max_phases = todo.iter().map(|i| plans[*i].phases.len()).max().unwrap();
+        let chunks: Vec<Vec<usize>> = (0..THREADS).map(|t| todo.iter().cloned().skip(t).step_by(THREADS).collect()).collect();
+        let done: Vec<Vec<(usize, Option<Vec<Vec<Result<Seen, String>>>>)>> = std::thread::scope(|scope| {
+            let handles: Vec<_> = chunks
+                .iter()
+                .map(|chunk| {
+                    scope.spawn(move || {
+                        let mut runners: Vec<(usize, Runner, Vec<Vec<Result<Seen, String>>>, bool)> =
+                            chunk.iter().map(|i| (*i, Runner::new(keys, clock), Vec::new(), true)).collect();
+                        for phase in 0..max_phases {
+                            for (i, runner, log, in_window) in runners.iter_mut() {
+                                let p = &plans[*i];
+                                if phase >= p.phases.len() || !*in_window {
+                                    continue;
+                                }
+                                let lo = clock.real(p.nows[phase]);
+                                let hi = clock.real(p.nows[phase] + 1); // exclusive
+                                while now_secs() < lo {
+                                    std::thread::sleep(Duration::from_millis(5));
+                                }
+                                let mut calls = Vec::new();
+                                for op in &p.phases[phase] {
+                                    calls.push(runner.call(op));
+                                }
+                                let t = now_secs();
+                                if t < lo || t >= hi {
+                                    *in_window = false;
+                                }
+                                log.push(calls);
+                            }
+                        }
+                        runners.into_iter().map(|(i, _, log, ok)| (i, if ok { Some(log) } else { None })).collect::<Vec<_>>()
+                    })
+                })
+                .collect();
+            handles.into_iter().map(|h| h.join().expect("schedule thread")).collect()
+        });
+        todo.clear();
+        for (i, r) in done.into_iter().flatten() {
+            match r {
+                Some(log) => results[i] = Some(log),
+                None => todo.push(i),
+            }
+        }
+    }
+    results
+}
+
+fn member_index(v: &Value) -> usize {
+    v.as_str().and_then(|s| s.trim_start_matches('m').parse::<usize>().ok()).map(|k| k - 1).unwrap_or(0)
+}
+
+fn replay(args: &Args) {
+    let mut behaviours = read_ndjson(args.input.as_ref().expect("--in"));
+    let max = args.extra_usize("max", usize::MAX);
+    if behaviours.len() > max {
+        // keep a seeded sample (every behaviour costs CPU inside a real-time window)
+        let mut rng = Rng::new(args.seed);
+        rng.shuffle(&mut behaviours);
+        behaviours.truncate(max);
+    }
+    let mut out = Outcome::new(
+        args,
+        "TLC-exported call sequences (add / get / remove_expired / clock ticks) executed on the real KeyRegistry with real \
+         XEdDSA-signed bundles (three kinds of bad signatures) and lifetimes laid around the real system clock (a spec tick is a real \
+         sleep of 6 s shared by all behaviours); per call: accepted / refused and the bundle handed out as in the spec, and the \
+         returned bundle's own verify(); non-trivial = a behaviour with a tick between an accepted add and a later get; distinct by behaviour",
+    );
+    if behaviours.is_empty() {
+        out.write(args);
+        return;
+    }
+    let start = behaviours[0]["start"].as_i64().expect("start");
+    let mut all_ops: Vec<Vec<Op>> = Vec::new();
+    let mut max_adds = 0;
+    for b in &behaviours {
+        assert_eq!(b["start"].as_i64(), Some(start), "one start per export");
+        let mut ops = Vec::new();
+        let mut adds = 0;
+        for s in b["steps"].as_array().expect("steps") {
+            let m = member_index(&s["m"]);
+            ops.push(match s["op"].as_str().unwrap() {
+                "add_onetime" => {
+                    adds += 1;
+                    Op::AddOneTime(m, Desc::from_json(&s["arg"]))
+                }
+                "add_longterm" => {
+                    adds += 1;
+                    Op::AddLongTerm(m, Desc::from_json(&s["arg"]))
+                }
+                "get_onetime" => Op::GetOneTime(m),
+                "get_longterm" => Op::GetLongTerm(m),
+                "remove_expired" => Op::RemoveExpired,
+                "tick" => Op::Tick(b["tick"].as_i64().expect("tick")),
+                o => {
+                    eprintln!("unknown op {o}");
+                    std::process::exit(2);
+                }
+            });
+        }
+        max_adds = max_adds.max(adds);
+        all_ops.push(ops);
+    }
+    let keys = make_keys(args.seed, 2, max_adds.max(1));
+    let plans: Vec<Plan> = all_ops.iter().map(|o| plan(o, start)).collect();
+    let results = run_schedule(&keys, &plans, start, &mut out);
+    for ((b, p), r) in behaviours.iter().zip(&plans).zip(results) {
+        let Some(log) = r else {
+            eprintln!("a behaviour left its real-time window in {ROUNDS} rounds: machine too slow for the schedule");
+            std::process::exit(2);
+        };
+        out.eval();
+        judge(b, p, &log, &mut out);
+    }
+    out.write(args);
+}
+
+/// Compares one behaviour's outcomes with the spec's and with the property itself.
+fn judge(b: &Value, p: &Plan, log: &[Vec<Result<Seen, String>>], out: &mut Outcome) {
+    let steps: Vec<&Value> = b["steps"].as_array().unwrap().iter().filter(|s| s["op"] != "tick").collect();
+    let mut k = 0;
+    let mut accepted_before_tick = false;
+    let mut nontrivial = false;
+    for (phase, calls) in log.iter().enumerate() {
+        let now = p.nows[phase];
+        if phase > 0 && accepted_before_tick {
+            nontrivial = nontrivial || p.phases[phase].iter().any(|o| matches!(o, Op::GetOneTime(_) | Op::GetLongTerm(_)));
+        }
+        for (op, seen) in p.phases[phase].iter().zip(calls) {
+            let step = steps[k];
+            k += 1;
+            let seen = match seen {
+                Ok(s) => s,
+                Err(panic) => {
+                    out.violation("C38", "registry-panics", format!("{op:?} at spec time {now} panicked: {panic}"), b.clone());
+                    return;
+                }
+            };
+            let spec_ok = step["ok"].as_bool().unwrap();
+            let spec_b = Desc::from_json(&step["b"]);
+            match op {
+                Op::AddOneTime(_, d) | Op::AddLongTerm(_, d) => {
+                    if seen.ok && !d.valid(now) {
+                        let sig = if !d.sig { "accepted-bad-signature" } else { "accepted-invalid-lifetime" };
+                        out.violation("C38", sig, format!("{op:?} was accepted at spec time {now}"), b.clone());
+                        return;
+                    }
+                    if seen.ok != spec_ok {
+                        out.violation("C38", "refused-valid-bundle", format!("{op:?} was refused at spec time {now}, the spec accepts it"), b.clone());
+                        return;
+                    }
+                    if seen.ok {
+                        accepted_before_tick = true;
+                        out.count("add_accepted");
+                    } else {
+                        out.count("add_refused");
+                    }
+                }
+                Op::GetOneTime(_) | Op::GetLongTerm(_) => {
+                    let onetime = matches!(op, Op::GetOneTime(_));
+                    // the property, on the real result: what is handed out is valid now
+                    if seen.b != NOB && (!seen.b.valid(now) || !seen.returned_verifies) {
+                        let sig = if onetime && seen.b.sig && seen.b.na <= now {
+                            "onetime-bundle-returned-after-expiry"
+                        } else if !onetime && seen.b.sig && seen.b.na <= now {
+                            "longterm-bundle-returned-after-expiry"
+                        } else {
+                            "returned-invalid-bundle"
+                        };
+                        out.violation(
+                            "C38",
+                            sig,
+                            format!(
+                                "{op:?} at spec time {now} handed out bundle {:?} (its own verify() {})",
+                                seen.b,
+                                if seen.returned_verifies { "passes" } else { "fails" }
+                            ),
+                            b.clone(),
+                        );
+                        return;
+                    }
+                    if seen.ok != spec_ok || seen.b != spec_b {
+                        out.violation(
+                            "C38",
+                            "get-differs-from-spec",
+                            format!("{op:?} at spec time {now}: ok={} bundle {:?}, spec says ok={spec_ok} bundle {spec_b:?}", seen.ok, seen.b),
+                            b.clone(),
+                        );
+                        return;
+                    }
+                    out.count(if seen.b == NOB { "get_none" } else { "get_some" });
+                }
+                _ => {}
+            }
+        }
+    }
+    if nontrivial {
+        out.mark_distinct(b["steps"].to_string());
+    }
+    out.sample(b.clone());
+}
+
+// ------------------------------------------------------------------------------------------
+
+const REC_START: i64 = 10;
+
+fn record(args: &Args) {
+    let mut rng = Rng::new(args.seed);
+    let n = if args.n > 0 { args.n } else { 100 };
+    let mut trace = TraceWriter::create(args.out.as_ref().expect("--out"));
+    let mut out = Outcome::new(
+        args,
+        "seeded random call sequences (2 members, <= 8 adds, gets, remove_expired, <= 3 clock ticks = real sleeps) on the real KeyRegistry with \
+         real signed bundles whose lifetimes start / end before, between and after the ticks; one event per call with the bundle handed out; \
+         distinct by (run, call)",
+    );
+    // odd bounds around the even clock values 10, 12, 14, 16
+    let bounds: Vec<i64> = vec![1, 7, 9, 9, 11, 11, 13, 13, 15, 17, 19, 1001];
+    let mut all_ops = Vec::new();
+    let mut max_adds = 0;
+    for _ in 0..n {
+        let mut ops = Vec::new();
+        let mut ticks = 0;
+        let mut adds = 0;
+        for _ in 0..rng.range(4, 16) {
+            let m = rng.below(2) as usize;
+            let d = Desc { nb: *rng.pick(&bounds[..9]), na: *rng.pick(&bounds[2..]), sig: !rng.chance(1, 6) };
+            let d = if rng.chance(2, 3) { Desc { nb: 9, ..d } } else { d };
+            match rng.below(10) {
+                0..=2 if adds < 8 => {
+                    adds += 1;
+                    ops.push(Op::AddOneTime(m, d));
+                }
+                3..=4 if adds < 8 => {
+                    adds += 1;
+                    ops.push(Op::AddLongTerm(m, d));
+                }
+                5 | 6 => ops.push(Op::GetOneTime(m)),
+                7 => ops.push(Op::GetLongTerm(m)),
+                8 => ops.push(Op::RemoveExpired),
+                _ if ticks < 3 => {
+                    ticks += 1;
+                    ops.push(Op::Tick(2));
+                }
+                _ => ops.push(Op::GetOneTime(m)),
+            }
+        }
+        max_adds = max_adds.max(adds);
+        all_ops.push(ops);
+    }
+    let keys = make_keys(args.seed ^ 0x5151, 2, max_adds.max(1));
+    let plans: Vec<Plan> = all_ops.iter().map(|o| plan(o, REC_START)).collect();
+    let results = run_schedule(&keys, &plans, REC_START, &mut out);
+    for (run, (p, r)) in plans.iter().zip(results).enumerate() {
+        let Some(log) = r else {
+            eprintln!("a run left its real-time window in {ROUNDS} rounds: machine too slow for the schedule");
+            std::process::exit(2);
+        };
+        trace.event(json!({"ev": "Reset", "run": run}));
+        let mut call = 0;
+        'run: for (phase, calls) in log.iter().enumerate() {
+            if phase > 0 {
+                trace.event(json!({"ev": "Tick", "d": p.nows[phase] - p.nows[phase - 1]}));
+            }
+            for (op, seen) in p.phases[phase].iter().zip(calls) {
+                out.eval();
+                out.mark_distinct(format!("{run}:{call}"));
+                call += 1;
+                let seen = match seen {
+                    Ok(s) => s,
+                    Err(panic) => {
+                        out.violation("C38", "registry-panics", format!("{op:?} panicked: {panic}"), json!({"run": run, "call": call}));
+                        break 'run;
+                    }
+                };
+                let ev = match op {
+                    Op::AddOneTime(m, d) => json!({"ev": "AddOneTime", "m": format!("m{}", m + 1), "b": d.json(), "ok": seen.ok,
+                                                   "ot_len": seen.ot_len, "lt_len": seen.lt_len}),
+                    Op::AddLongTerm(m, d) => json!({"ev": "AddLongTerm", "m": format!("m{}", m + 1), "b": d.json(), "ok": seen.ok,
+                                                    "ot_len": seen.ot_len, "lt_len": seen.lt_len}),
+                    Op::GetOneTime(m) => json!({"ev": "GetOneTime", "m": format!("m{}", m + 1), "b": seen.b.json(), "ok": seen.ok,
+                                                "verifies": seen.returned_verifies, "ot_len": seen.ot_len, "lt_len": seen.lt_len}),
+                    Op::GetLongTerm(m) => json!({"ev": "GetLongTerm", "m": format!("m{}", m + 1), "b": seen.b.json(), "ok": seen.ok,
+                                                 "verifies": seen.returned_verifies, "ot_len": seen.ot_len, "lt_len": seen.lt_len}),
+                    Op::RemoveExpired => json!({"ev": "RemoveExpired"}),
+                    Op::Tick(_) => unreachable!(),
+                };
+                out.sample(ev.clone());
+                trace.event(ev);
+            }
+        }
+    }
+    let (events, runs) = trace.finish();
+    out.set_trace(events, runs);
+    out.write(args);
 }
